@@ -1,4 +1,5 @@
 import Ndt.Model.Hessian
+import Ndt.Proofs.HessGen
 import Ndt.Props.C01
 /-!
 # C04 — Hessian is symmetric and correct; Hessdiag is its diagonal
